@@ -36,6 +36,10 @@ CLAIMED = {
   text="Watcher.tla states the property's rule directly (when to refute, with which parent/sub-channel/archived versions in which order, when to relay, refused stop). TLC checks OneCall/CallNewest/RelayIncreasing/RefusedStopKeeps and dumps the complete reachable graph for one sub-channel; every edge is replayed after its shortest path, plus TLC-simulated behaviours with two sub-channels, in synctest bubbles on the real local.Watcher with a scripted RegisterSubscriber: Register arguments, events on every AdjudicatorSub and API results are compared with the model after every step; leftover blocked goroutines and panics are violations.",
   note="Trusted: TLC, synctest quiescence (virtual 1 ms drain timer), harness fakes. Bounds: versions <= 2 (3 thorough), 1 sub-channel exhaustively, 2 by simulation; steps separated by quiescence.", ref="5/C05",
   technique="explicit TLA+ spec (Watcher.tla), TLC exhaustive state graph + simulated behaviours, every behaviour replayed on the real watcher with outputs compared per step"),
+ "C18": dict(
+  text="Relay.tla gives the sequential meaning of wire.Relay with its cache (put fan-out / cache / default handler, subscribe taking cached envelopes, cache predicates, consumer close, relay close); TLC checks NoWrongNoDup/ExactlyOnePlace and dumps the reachable graph. (a) Every edge is replayed on a real relay with recording consumers; (b) seeded concurrent runs of the real relay are recorded (call/return per operation under one log mutex, final bags) and validated by TLC against RelayTrace.tla, which linearises each operation between its call and return and treats the asynchronous consumer removal as a silent step; (c) free-running 16-goroutine stress with a schedule-independent exactly-once accounting monitor.",
+  note="Trusted: TLC, log mutex ordering, recording consumers. Interleavings inside the relay come from the Go scheduler (not enumerated); no hooks in /repo were needed. Bounds: 3-4 envelopes x 2-3 consumers sequentially; 300/3000 recorded traces.", ref="5/C18",
+  technique="explicit TLA+ spec (Relay.tla) + trace validation of recorded concurrent executions by TLC (RelayTrace.tla) + exhaustive sequential replay"),
 }
 NA_REASON = "check not built yet (work in progress, see DESIGN.md section 11); not a statement that the technique cannot apply"
 checks = []
